@@ -53,6 +53,14 @@ type PStr struct{ v string }
 
 func (s *PStr) String() string { return "PStr(" + s.v + ")" }
 
+type MyErr struct{}
+
+func (*MyErr) Error() string { return "myerr" }
+
+type MyF float64
+
+type Iface interface{ PM() int }
+
 func (e *Env) t(tag string) { e.trace = append(e.trace, tag) }
 
 // impure operands: every call is recorded; results change from call to call
@@ -222,3 +230,43 @@ def render(items):
         names.append((name, fam))
         out.append("// %s %s\nfunc %s(e *Env) string {\n\t%s\n}\n" % (name, fam, name, body))
     return "\n".join(out), names
+
+
+def build12(rng, scale=1):
+    """Scenario families for C12 (claims of a constant outcome)."""
+    g = Gen(rng)
+    R = rng
+    # sloppyLen: always true / always false
+    for c in ["len(e.Xs) >= 0", "len(s) < 0", "len(e.M) >= 0", "len(e.Fs()) >= 0", "len(e.B0) < 0", "len(e.P.Arr) >= 0", "0 <= len(s)"]:
+        g.add("sloppylen", "r := %s\n\treturn out(r)" % c, PRE_STR)
+    g.add("sloppylen-shadow", "len := func(xs []int) int { return -1 }\n\tr := len(e.Xs) >= 0\n\treturn out(r)")
+    g.add("sloppylen-shadow", "len := func(xs []int) int { return -1 }\n\tr := len(e.Xs) < 0\n\treturn out(r)")
+    # badCond: always false
+    for a, lo, hi in [("x", "1", "5"), ("e.I0", "-3", "17"), ("e.Xs[0]", "0", "1"), ("e.P.A", "2", "010"), ("x*2", "1", "3"), ("f", "1.0", "5.0"), ("e.F0", "0.5", "1.5"), ("mf", "1", "2")]:
+        g.add("badcond", "mf := MyF(e.F0)\n\t_ = mf\n\tr := %s < %s && %s > %s\n\treturn out(r)" % (a, lo, a, hi), PRE_INT + PRE_FLT)
+    g.add("badcond-impure", "r := e.Fi()*10 < 15 && e.Fi()*10 > 16\n\treturn out(r)")
+    g.add("badcond-impure", "r := e.Ti(e.Fi()) < 2 && e.Ti(e.Fi()) > 1\n\treturn out(r)")
+    g.add("badcond-impure", "ch := make(chan int, 2)\n\tch <- 1\n\tch <- 9\n\tr := <-ch < 2 && <-ch > 5\n\treturn out(r)")
+    # offBy1: always panics
+    for c in ["e.Xs[len(e.Xs)]", "e.B0[len(e.B0)]", "e.Ys[len(e.Ys)]", "e.P.Next.Arr[:][len(e.P.Next.Arr[:])]"]:
+        g.add("offby1", "r := %s\n\treturn out(r)" % c)
+    g.add("offby1-shadow", "len := func(xs []int) int { return 0 }\n\tr := e.Xs[len(e.Xs)]\n\treturn out(r)")
+    # caseOrder: the case can never be reached where it stands
+    for arms in [("error", "*MyErr"), ("fmt.Stringer", "Str"), ("any", "int"), ("interface{}", "nil"), ("any", "nil"), ("error", "nil"), ("Iface", "*Rec"), ("interface{ Error() string }", "*MyErr"), ("fmt.Stringer", "*PStr")]:
+        g.add("caseorder", "var x any = e.Any\n\tswitch x.(type) {\n\tcase %s:\n\t\treturn \"first\"\n\tcase %s:\n\t\treturn \"second\"\n\t}\n\treturn \"none\"" % arms)
+        g.add("caseorder-bind", "var x any = e.Any\n\tswitch v := x.(type) {\n\tcase %s:\n\t\treturn out(\"first\", v)\n\tcase %s:\n\t\treturn out(\"second\", v)\n\t}\n\treturn \"none\"" % arms)
+    g.add("caseorder-err", "var x error = e.Err\n\tswitch x.(type) {\n\tcase error:\n\t\treturn \"first\"\n\tcase nil:\n\t\treturn \"second\"\n\t}\n\treturn \"none\"")
+    # nilValReturn: returned value is always nil
+    g.add("nilval", "fn := func(p *Rec) *Rec {\n\t\tif p == nil {\n\t\t\treturn p\n\t\t}\n\t\treturn p.Next\n\t}\n\treturn out(fn(e.P) == nil, fn(nil) == nil)")
+    g.add("nilval", "fn := func(err error) error {\n\t\tif err == nil {\n\t\t\treturn err\n\t\t}\n\t\treturn nil\n\t}\n\treturn out(fn(e.Err), fn(nil))")
+    g.add("nilval", "fn := func(xs []int) ([]int, int) {\n\t\tif xs == nil {\n\t\t\treturn xs, 1\n\t\t}\n\t\treturn xs, 2\n\t}\n\treturn out(fn(e.Xs))")
+    g.add("nilval", "fn := func(m map[string]int) map[string]int {\n\t\tif m == nil {\n\t\t\treturn m\n\t\t}\n\t\treturn nil\n\t}\n\treturn out(fn(e.M), fn(nil))")
+    # dupSubExpr: both operands are the same value
+    for c in ["x == x", "x != x", "x - x", "x & x", "x | x", "x < x", "x >= x", "s == s", "s != s", "e.I0 == e.I0", "e.Xs[0] == e.Xs[0]", "e.P.A - e.P.A", "gb && gb", "gb || gb", "x / x", "x % x",
+              "f == f", "f != f", "f - f", "f < f", "mf == mf", "mf != mf", "mf - mf", "e.Fi() == e.Fi()", "e.Fi() - e.Fi()", "e.Ff() == e.Ff()", "(x + y) == (x + y)"]:
+        g.add("dupsub", "gb := e.I0 > 0\n\tmf := MyF(e.F0)\n\t_, _ = gb, mf\n\tr := %s\n\treturn out(r)" % c, PRE_INT + PRE_FLT + PRE_STR)
+    # dupArg: the two arguments are the same value
+    for c in ["copy(b, b)", "strings.Contains(s, s)", "bytes.Equal(b, b)", "strings.Compare(s, s)", "strings.HasPrefix(s, s)", "e.T0.Equal(e.T0)", "strings.Contains(e.Fs(), e.Fs())", "bytes.Equal(e.Fbs(), e.Fbs())",
+              "strings.Index(e.S0, e.S0)", "strings.Replace(s, t, t, 1)", "strings.EqualFold(s, s)"]:
+        g.add("duparg", "r := %s\n\treturn out(r)" % c, PRE_STR + PRE_BS)
+    return g.items
